@@ -1,9 +1,13 @@
 import PC.Gen.Stop
 import PC.Model.Stop
+import PC.Model.StopPlan
+import PC.Gen.Facts
 namespace PC.Tie.Stop
 theorem cmdStop_eq : PC.Gen.Stop.cmdStop = PC.Stop.cmdStop := rfl
 theorem minSig_eq : PC.Gen.Stop.minSig = PC.Stop.minSig := rfl
 theorem maxSig_eq : PC.Gen.Stop.maxSig = PC.Stop.maxSig := rfl
 theorem undefinedTimeout_eq : PC.Gen.Stop.undefinedShutdownTimeoutSec = PC.Stop.undefinedShutdownTimeoutSec := rfl
 theorem defaultTimeout_eq : PC.Gen.Stop.defaultShutdownTimeoutSec = PC.Stop.defaultShutdownTimeoutSec := rfl
+/-- the call sites of `p.command.Stop` in process.go and their arguments are those of the model -/
+theorem stopCalls_eq : PC.Gen.Facts.stopCalls = PC.Stop.stopCalls := by decide
 end PC.Tie.Stop
